@@ -22,6 +22,8 @@ CONSTANTS MaxBuild,      \* fields added in the build phase (before completion)
           MaxDepth,      \* nesting depth of selections below the root field
           MaxRoots,      \* root fields per operation
           RootFilter,    \* set of root field names to generate for, or {} for all
+          FieldFilter,   \* set of non-root field names the generator may select, or {} for all
+          MaxReval,      \* reuse lane: argument sets changed after Freeze (same text, other variables)
           Mut            \* "none", or the name of a deliberately broken reference executor (negative checks)
 VARIABLES op, base, phase, steps, normOnly, nb
 gvars == <<op, base, phase, steps, normOnly, nb>>
@@ -54,7 +56,8 @@ EntityFrags == [k \in DOMAIN GenMembers["_Entity"] |-> Inline(GenMembers["_Entit
 Candidates(p) ==
   LET tn == TypeAt(op, p) IN
   IF Len(p) = 0 THEN RootsOf(op.kind)
-  ELSE SeqToSet(GenFields[tn]) \cup (IF tn = "_Entity" THEN {} ELSE {"__typename"})
+  ELSE LET all == SeqToSet(GenFields[tn]) \cup (IF tn = "_Entity" THEN {} ELSE {"__typename"})
+       IN IF FieldFilter = {} THEN all ELSE all \cap FieldFilter
 
 Init ==
   /\ op \in {[kind |-> k, fed |-> <<>>, sel |-> <<>>] : k \in {"query", "mutation"}}
@@ -83,7 +86,7 @@ AddField(p, fn, as) ==
   /\ Completing => /\ Len(L) = 0
                    /\ Len(p) > 0
                    /\ IsLeafField(tn, fn)
-                   /\ fn = "__typename" => ~\E g \in SeqToSet(GenFields[tn]) : IsLeafField(tn, g)
+                   /\ fn = "__typename" => ~\E g \in Candidates(p) \ {"__typename"} : IsLeafField(tn, g)
   /\ op' = [op EXCEPT !.sel = PutAt(op.sel, p, Append(L, Field(fn, "", as, IF fn = "_entities" THEN EntityFrags ELSE <<>>))),
                       !.fed = IF fn = "_entities" THEN EntityFed ELSE @]
   /\ nb' = nb + 1
@@ -112,17 +115,30 @@ Freeze ==
 Step(name, p, i, new, no) ==
   /\ op' = new
   /\ steps' = Append(steps, [a |-> name, p |-> p, i |-> i])
-  /\ normOnly' = (normOnly \/ no)
+  /\ normOnly' = (normOnly \/ no \/ SameKeyDiffer(new.sel))
   /\ UNCHANGED <<base, phase, nb>>
+
+\* reuse lane: after Freeze the same operation with other argument values (a chain of <= MaxReval changes)
+IsReval == Len(steps) > 0 /\ steps[1].a = "Revalue"
+Revalue ==
+  /\ phase = "reform"
+  /\ Len(steps) < MaxReval
+  /\ Len(steps) = 0 \/ IsReval
+  /\ \E p \in Paths(op) : \E i \in DOMAIN SelsAt(op.sel, p) :
+       LET tn == TypeAt(op, p)
+           f  == SelsAt(op.sel, p)[i]
+       IN /\ f.k = "f" /\ Len(f.args) > 0
+          /\ \E as \in ArgSets(tn, f.name) : E_Revalue(op, p, i, as) /\ Step("Revalue", p, i, R_Revalue(op, p, i, as), FALSE)
 
 Reform ==
   /\ phase = "reform"
+  /\ ~IsReval
   /\ Len(steps) < MaxReform
   /\ \E p \in Paths(op) : \E i \in DOMAIN SelsAt(op.sel, p) :
        \/ E_AddAlias(op, p, i)   /\ Step("AddAlias", p, i, R_AddAlias(op, p, i), FALSE)
        \/ E_Reorder(op, p, i)    /\ Step("Reorder", p, i, R_Reorder(op, p, i), FALSE)
        \/ E_Duplicate(op, p, i)  /\ Step("Duplicate", p, i, R_Duplicate(op, p, i), FALSE)
-       \/ E_Split(op, p, i)      /\ Step("Split", p, i, R_Split(op, p, i), TRUE)
+       \/ E_Split(op, p, i)      /\ Step("Split", p, i, R_Split(op, p, i), SplitNormOnly(op, p, i))
        \/ E_WrapSelf(op, p, i)   /\ Step("WrapSelf", p, i, R_WrapSelf(op, p, i), WrapSelfNormOnly(op, p, i))
        \/ E_WrapSelf(op, p, i)   /\ Step("ToNamed", p, i, R_ToNamed(op, p, i), TRUE)
        \/ E_Distribute(op, p, i) /\ Step("Distribute", p, i, R_Distribute(op, p, i), InFragment(op, p))
@@ -133,6 +149,7 @@ Next ==
   \/ \E p \in BuildPaths : \E m \in SeqToSet(GenMembers[TypeAt(op, p)]) : AddFrag(p, m)
   \/ Freeze
   \/ Reform
+  \/ Revalue
 Spec == Init /\ [][Next]_gvars
 
 \* ----- emission: one line per *visited* reform state.  The print is a conjunct of the next-state relation, so it
@@ -145,7 +162,7 @@ GenSpec == Init /\ [][EmitCur /\ Next]_gvars
 
 \* ----- MC_C20: the relations are satisfiable and every reformulation preserves them (reference executor)
 RefOK ==
-  phase = "reform" =>
+  phase = "reform" /\ ~IsReval =>
     LET rb == RefExec(base, Mut)
         rv == RefExec(op, Mut)
     IN /\ RespErrs(base, rb) = {}
